@@ -15,5 +15,36 @@ claim("C20", "proof",
       "DESIGN.md §9 C20",
       "Lean kernel; strconv/time.ParseDuration/yaml.v2 are parameters with contract 'malformed => error' (trusted, exercised); extractor + harness trusted",
       "Lean 4 proof (case analysis over layer states) + regenerated skeleton/constant tie + differential correspondence")
-for p in ["C01","C02","C03","C04","C05","C06","C07","C08","C09","C10","C11","C12","C13","C14","C15","C16","C17"]:
+SEQ_NOTE = 'Lean kernel + propext/Classical.choice/Quot.sound; concrete model hand-written (maps as functions, uuids as indices, Badger/FS as record lists, one atomic step per operation) and tied by skeleton texts of all modelled functions + three-way differential run (implementation = concrete model = specification on generated histories through the real inline database); Go runtime/Badger/OS modelled (DESIGN §10)'
+SEQ_TECH = 'Lean 4 proof: refinement (forward simulation, invariant of 21 conjuncts) of the concrete model to an abstract specification + corollaries on the specification; tie = regenerated skeleton texts + differential correspondence on the real database'
+claim("C01", "proof",
+      "Refine.run (every history: concrete model of version lists/array search/all-store/commit/collector answers exactly what Spec.Iso answers) + C01_map_spec/C01_map_concrete (autocommit histories behave like a plain map: the simplest possible spec) + the clauses C01_get_after_set, C01_other_key, C01_get_after_del, C01_empty_key, C01_missing, C01_keys (sorted, duplicate-free, iff Get succeeds). Correspondence: autocommit histories with Set/SetReader/Create, contents around the 2048/32768 boundaries, byte-exact, on the real inline DB.",
+      "DESIGN.md §9 C01", SEQ_NOTE, SEQ_TECH)
+claim("C02", "proof",
+      "C02_refinement = Refine.run: for EVERY history of Begin/Set/Delete/Get/GetKeys/Commit/Rollback/gc/drain (any number of open transactions, any levels, any number of versions) the concrete model answers what the specification answers; plus C02_RU, C02_RC, C02_RR_own, C02_RR_snapshot, C02_keys_iff_get, C02_autocommit_is_RC, C02_deleted_reads_notfound on the specification. Correspondence: observers at all levels read every key after every step on the real DB, gc at random positions.",
+      "DESIGN.md §9 C02", SEQ_NOTE, SEQ_TECH)
+claim("C03", "proof",
+      "On the specification (carried to the concrete model by Refine.step): C03_commit_ok (all own last writes become the committed values at once, nothing else changes), C03_rollback_noop, C03_failed_commit_noop, C03_conflict_iff (snapshot commit fails iff some written key has a committed version newer than the begin stamp), C03_no_conflict_RU_RC. Correspondence: conflict-biased histories on the real DB.",
+      "DESIGN.md §9 C03", SEQ_NOTE, SEQ_TECH)
+claim("C09", "proof",
+      "C09_gc_invisible_now / C09_cleanup_invisible_now (no read by anyone changes across a collector pass or cleanup, in every reachable state), C09_gc_invisible_later (the post-state is again related to the specification state, identical when a transaction is open and differing only in the clock otherwise), C09_no_live_content_removed, C09_horizon_not_version. PARTIAL: the last step of 'later' for the no-open-transaction case (specification answers are invariant under a clock shift) is not yet a theorem; it is covered by the correspondence run with gc+drain before every op.",
+      "DESIGN.md §9 C09", SEQ_NOTE, SEQ_TECH + "; partial (clock-shift invariance of the spec not proved)")
+claim("C13", "proof",
+      "C13_late_use (every Get/GetKeys/Set/Delete/Commit through a closed or unknown id answers ErrTxNotFound, Rollback ok, state unchanged), C13_closed_after_end, C13_stays_closed, C13_begin_fresh on the specification; C13_late_use_concrete through the refinement (the registry guard of store.Guarded is part of the model). Correspondence: 30 percent of transactional ops through finished handles, RU observers, reopen; corpus witness of the repaired zombie-write defect runs first.",
+      "DESIGN.md §9 C13", SEQ_NOTE, SEQ_TECH)
+claim("C14", "proof",
+      "PARTIAL. Proved: deletion jobs only name unlinked versions (C14_jobs_are_dead), every reachable version keeps its content (C14_live_has_content), rollback/failed commit/commit/collector hand over exactly the right versions (C14_rollback_schedules_all, C14_commit_schedules_rest, C14_gc_schedules_collected), with no transaction open the collector keeps exactly the newest version per key (C14_gc_keeps_only_latest). Not yet a theorem: the equality 'content files = committed values' at quiescence and after reopen; it is decided by the correspondence run (walk of the real storage roots vs model vs specification after drain;gc;drain and after reopen;drain).",
+      "DESIGN.md §9 C14", SEQ_NOTE, SEQ_TECH + "; partial")
+CONC_NOTE = SEQ_NOTE + "; a critical section under an exclusive lock = one atomic model step (trusted); schedules enforced only at verif hook points"
+CONC_TECH = "Lean 4 proof on the specification/model of atomic steps + skeleton tie of the lock structure + enforced-schedule exploration on the real database with linearizability against the Lean spec"
+claim("C06", "proof",
+      "PARTIAL. C06_atomic_steps_refine (all interleavings of atomic steps = all histories refine Spec.Iso), C06_no_wait_cycle (ordered lock acquisition excludes wait cycles) with C06_lock_order over the lock classes of usecase/core. That each real operation is atomic is checked, not proved: enforced schedules of reader/writer/collector/rollback programs on the real DB at hook points, answers must be linearizable against the Lean spec. One open known finding (GetKeys reclaim window).",
+      "DESIGN.md §9 C06", CONC_NOTE, CONC_TECH + "; partial")
+claim("C07", "proof",
+      "C07_first_committer_wins: on the specification, for two open transactions that wrote the same key, after the first commits successfully the second (snapshot level) fails with ErrTxSerialization after ANY further history, its writes never become visible and it is closed; atomicity of the real commit is tied by the UpdateTx skeleton (single critical section) and checked by exhaustive enforced schedules of 2-3 committers on the real DB (the repaired lost-update schedule is replayed on every run).",
+      "DESIGN.md §9 C07", CONC_NOTE, CONC_TECH)
+claim("C08", "proof",
+      "C08_repeatable(_step) (what a snapshot sees of any key is unchanged by any operation of anybody incl. the collector), C08_atomic_visibility (a commit's versions carry one stamp: a snapshot begun before sees none, one begun after has all below its begin stamp), C08_concrete_snapshot (the concrete snapshot read equals the specification's after any collector passes). Real-code side: skeletons of Begin/UpdateTx/cleaner.DeleteOld (one number per commit under the main lock; horizon lock) + enforced schedules (fractured-read and Begin-vs-GC witnesses replayed on every run).",
+      "DESIGN.md §9 C08", CONC_NOTE, CONC_TECH)
+for p in ["C04","C05","C10","C11","C12","C15","C16","C17"]:
     na(p, PENDING)
